@@ -230,6 +230,43 @@ func exercise(valueOf func(jsonapi.Attr, int) any, s gen.Shape, arg any, how str
 		}
 	}
 
+	// Copy and New again, now that every field holds a (non-zero) value.
+	if p := oracle.Try(func() {
+		cp := w.Copy()
+		if cp == nil || cp.GetType().Name != name || cp.Get("id") != "some-id" {
+			msg = "Wrapper.Copy() of a filled struct lost the type or the ID"
+			return
+		}
+
+		for _, f := range declared {
+			jsonName := ""
+			if f.HasJSON {
+				jsonName = f.JSON
+			}
+
+			a, b := w.Get(jsonName), cp.Get(jsonName)
+			if f.API == "attr" {
+				if ok, why := oracle.SameValue(attrs[jsonName], a, b); !ok && !(isNilValue(a) && isNilValue(b)) {
+					msg = fmt.Sprintf("Wrapper.Copy(): field %s (json %q) reads %s in the copy, %s in the source: %s", f.Name, jsonName, gen.Show(b), gen.Show(a), why)
+					return
+				}
+			} else if !reflect.DeepEqual(a, b) {
+				msg = fmt.Sprintf("Wrapper.Copy(): field %s (json %q) reads %v in the copy, %v in the source", f.Name, jsonName, b, a)
+				return
+			}
+		}
+
+		if n := w.New(); n == nil || n.GetType().Name != name {
+			msg = "Wrapper.New() of a filled struct does not return a resource of the type"
+		}
+	}); p != nil {
+		return fmt.Sprintf("Copy/New of a filled struct (%s): %s", how, p)
+	}
+
+	if msg != "" {
+		return msg
+	}
+
 	var out []byte
 	if p := oracle.Try(func() { out = jsonapi.MarshalResource(w, "/p", fields, map[string][]string{name: relNames}) }); p != nil {
 		return fmt.Sprintf("MarshalResource (%s): %s", how, p)
@@ -415,6 +452,10 @@ func TestC20Regress(t *testing.T) {
 		"attr-without-json":    shape(okID, gen.FieldShape{Name: "A", GoType: str, HasAPI: true, API: "attr"}),
 		"duplicate-json-attrs": shape(okID, gen.FieldShape{Name: "A", GoType: str, HasAPI: true, API: "attr", HasJSON: true, JSON: "a"}, gen.FieldShape{Name: "B", GoType: num, HasAPI: true, API: "attr", HasJSON: true, JSON: "a"}),
 		"attr-json-id":         shape(okID, gen.FieldShape{Name: "A", GoType: num, HasAPI: true, API: "attr", HasJSON: true, JSON: "id"}),
+		"attr-shares-id-json-tag": shape(gen.FieldShape{Name: "ID", GoType: str, HasAPI: true, API: "t", HasJSON: true, JSON: "a"},
+			gen.FieldShape{Name: "A", GoType: num, HasAPI: true, API: "attr", HasJSON: true, JSON: "a"}),
+		"unknown-api-tag-shares-json": shape(okID, gen.FieldShape{Name: "X", GoType: num, HasAPI: true, API: "attr,x", HasJSON: true, JSON: "r"},
+			gen.FieldShape{Name: "R", GoType: str, HasAPI: true, API: "rel,t", HasJSON: true, JSON: "r"}),
 		"untagged-shares-json": shape(okID, gen.FieldShape{Name: "U", GoType: num, HasJSON: true, JSON: "a"}, gen.FieldShape{Name: "A", GoType: str, HasAPI: true, API: "attr", HasJSON: true, JSON: "a"}),
 		"attr-and-rel-same":    shape(okID, gen.FieldShape{Name: "A", GoType: str, HasAPI: true, API: "attr", HasJSON: true, JSON: "a"}, gen.FieldShape{Name: "R", GoType: strs, HasAPI: true, API: "rel,t", HasJSON: true, JSON: "a"}),
 		"fine":                 shape(okID, gen.FieldShape{Name: "A", GoType: str, HasAPI: true, API: "attr", HasJSON: true, JSON: "a"}, gen.FieldShape{Name: "R", GoType: strs, HasAPI: true, API: "rel,t,inv", HasJSON: true, JSON: "r"}),
